@@ -36,18 +36,26 @@ class Report:
         self.assumptions = []
         self.extra = {}
         self.fns_analysed = 0
+        self.config = "mip04"
+        self.configs_run = []
 
     # ---- recording ----
+    def begin_config(self, cfg):
+        self.config = cfg
+        self.configs_run.append(cfg)
+        self._clauses_seen = set(self.clauses)
+
     def clause(self, text):
-        self.clauses.append(text)
+        if text not in self.clauses:
+            self.clauses.append(text)
 
     def ok(self, rule, instance, detail="", loc=None):
         self.obligations.append({"rule": rule, "key": "%s/%s/%s" % (self.prop, rule, instance), "status": "ok",
-                                 "detail": detail, "loc": loc})
+                                 "detail": detail, "loc": loc, "config": self.config})
 
     def violation(self, rule, instance, what, loc=None, path=None):
         self.obligations.append({"rule": rule, "key": "%s/%s/%s" % (self.prop, rule, instance), "status": "violation",
-                                 "detail": what, "loc": loc, "path": path})
+                                 "detail": what, "loc": loc, "path": path, "config": self.config})
 
     def check(self, cond, rule, instance, ok_detail, bad_detail, loc=None, path=None):
         if cond:
@@ -115,6 +123,7 @@ class Report:
                 "samples": samples,
                 "notes": self.notes[:50],
                 "exhaustive": True,
+                "configs": self.configs_run,
             },
             "assumptions": self.assumptions + [
                 "rustc's MIR construction and callee resolution are correct",
@@ -137,7 +146,11 @@ class Report:
             print("   rule %-34s ok=%-4d known=%-2d violation=%d" % (r, c["ok"], c["known"], c["violation"]))
         for n in self.notes[:30]:
             print("   note: " + n)
+        shown_k = set()
         for o in knownf:
+            if o["key"] in shown_k:
+                continue
+            shown_k.add(o["key"])
             print("KNOWN-FINDING: property=%s %s — %s [%s]" % (self.prop, o["key"], o["detail"], o.get("loc") or ""))
         if viol:
             rp = os.path.join(evdir, "replay")
@@ -145,8 +158,12 @@ class Report:
             path = os.path.join(rp, "%s.json" % self.prop)
             with open(path, "w") as fh:
                 json.dump({"property": self.prop, "violations": viol}, fh, indent=1)
+            shown = set()
             for o in viol:
-                print("  VIOLATED %s: %s [%s]%s" % (o["key"], o["detail"], o.get("loc") or "",
+                if o["key"] in shown:
+                    continue
+                shown.add(o["key"])
+                print("  VIOLATED %s [%s]: %s [%s]%s" % (o["key"], o.get("config"), o["detail"], o.get("loc") or "",
                                                     (" path=" + " -> ".join(o["path"])) if o.get("path") else ""))
             print("VIOLATION property=%s replay=%s" % (self.prop, path))
             return 1
